@@ -565,6 +565,36 @@ def rule_cache_shape(fx, col):
                 srcs |= {o[1] for o in rv.origins(a_, through_calls=thr_w) if o[0] == 'call'}
             if {asp[0][0], cell[0].bb} == srcs:
                 guard = ((U.callee_name(r2[0][2]) == 'ne') == r2[1])
+    # ... and on nothing else: once the pointers differ the reload happens, whatever else is true of the thread (unwinding, its
+    # thread-local storage gone, ..): any further condition is a state in which the cache keeps answering with a value that a
+    # completed store has replaced
+    extra = []
+    for (sbb, succ, val) in U.dominating_branches(rv, lf[0][0], unwind=False):
+        r2 = U.bool_outcome(rv, sbb, val)
+        is_ptr_cmp = False
+        if r2 and r2[0]:
+            d_ = r2[0]
+            ops_ = []
+            if d_[0] == 'rv' and d_[3]['k'] == 'binop' and d_[3]['op'] in ('Eq', 'Ne'):
+                ops_ = [d_[3]['l'], d_[3]['r']]
+            elif d_[0] == 'call' and U.callee_name(d_[2]) in ('eq', 'ne') and len(d_[2]['args']) == 2:
+                ops_ = list(d_[2]['args'])
+            if ops_:
+                thr_w2 = lambda t: [0] if U.callee_name(t) in ('new', 'new_unchecked', 'cast', 'cast_mut', 'cast_const', 'as_ptr', 'from') and \
+                    ('ptr::' in t['callee'].get('path', '') or 'NonNull' in t['callee'].get('path', '')) else None
+                srcs = set()
+                for a_ in ops_:
+                    srcs |= {o[1] for o in rv.origins(a_, through_calls=thr_w2) if o[0] == 'call'}
+                is_ptr_cmp = srcs == {asp[0][0], cell[0].bb}
+        if not is_ptr_cmp:
+            facts_ = U.edge_facts(rv, sbb, succ)
+            if any(f[0] == 'variant' for f in facts_) and not r2:
+                # a match on the comparison result carried in an Option / bool wrapper is still the comparison: look at what it tests
+                if all(({o[1] for o in rv.origins(f[1]) if o[0] == 'call'} <= {asp[0][0], cell[0].bb, lf[0][0]}) for f in facts_ if f[0] == 'variant'):
+                    continue
+            extra.append(rv.loc(sbb))
+    col.add('CACHE-SHAPE', 'revalidate|reload is unconditional once the pointers differ', not extra,
+            'conditions on the way to the reload other than the pointer comparison: %s' % (extra or 'none'))
     col.add('CACHE-SHAPE', 'revalidate|reload iff changed', guard is True,
             'the reload is control dependent on the UNEQUAL outcome of cached pointer vs current pointer' if guard else 'reload guarded by: %s' % guard, rv.loc(lf[0][0]))
     # same container on both sides
